@@ -205,7 +205,7 @@ def _jobs(ctx):
             jobs.append({"case": cc.make_case(n, ctx.seed * 4 + 1), "watch": True, "seed": ctx.seed})
         jobs.append({"case": cc.make_case("detachrun", ctx.seed)})
         jobs.append({"case": cc.witness_d13(), "points": "schema", "dense": True})
-        jobs.append({"case": cc.make_case("chain", ctx.seed * 4 + 1), "points": "schema"})   # not a first start
+        jobs.append({"case": cc.make_case("chain", ctx.seed * 4 + 1), "points": "schema", "dense": True})  # not a first start
     else:
         picks = [(n, rng.randrange(1000)) for n in rng.sample(names, 3)] + [("gen", rng.randrange(1000))]
         jobs += [{"case": cc.make_case(n, s), "sample": 6, "seed": ctx.seed} for n, s in picks]
@@ -315,7 +315,7 @@ def correspondence(ctx):
     verdicts = common.eval_terms(ctx, "witness", HEADER, [
         "no_orphans_b W2 [] d6_sys", "no_orphans_b W1 [s_o] d6b_sys",
         "match open_db_now false 100 (db_at 100 d6_history 0) with Ok _ => true | _ => false end",
-        "forallb (CrashSchema.reopens_b GenCrashSchema.apply_schema_writes 6) (seq 0 10)"])
+        "forallb (CrashSchema.reopens_b GenCrashSchema.apply_schema_writes GenCrashSchema.schema_drops 6) (seq 0 11)"])
     want = {"d6": verdicts[0], "d6b": verdicts[1], "d13": verdicts[2], "schema": verdicts[3]}
     seen = {}
     for case, ref, pr in _points(results):
